@@ -127,8 +127,7 @@ def P_dlc_server(ctx, t):
         call(ctx, t, "bind", "dlc2", lambda: s.bind(b"urn:nfc:sn:dut"), sock=s)
         call(ctx, t, "listen", "dlc2", lambda: s.listen(1), sock=s)
         c = call(ctx, t, "accept", "dlc2", s.accept, sock=s)
-        know(ctx, c, "dlc2c")
-        ctx.emit("Adopt", t, "dlc2c", "dlc2", "-")
+        know(ctx, c, "dlc2c")        # (already known: Adopt is logged by the insert_socket wrapper)
         call(ctx, t, "recv", "dlc2c", c.recv, sock=c)
         call(ctx, t, "send", "dlc2c", lambda: c.send(b"reply"), sock=c)
     finally:
@@ -342,6 +341,25 @@ def run_scenario(progs, cause, cut, chooser, max_steps=6000):
                             ctx.bound[sid] = ctx.phase
                             ctx.emit("Bound", t, sid, "-", ctx.phase)
         llc.bind = bind
+
+        # accept(): the connection is registered at the listener's access point (insert_socket) - logged there, under
+        # the controller lock, as Adopt(thread, connection, listener); LlcpLife!Adopt demands a live access point
+        import nfc.llcp.llc as llc_mod
+        orig_insert = llc_mod.ServiceAccessPoint.insert_socket
+        saved[(llc_mod.ServiceAccessPoint, "insert_socket")] = orig_insert
+
+        def insert_socket(self, socket):
+            with self.llc.lock:
+                r = orig_insert(self, socket)
+                if id(socket) not in ctx.sid_of:
+                    lst = [ctx.sid_of.get(id(x)) for x in self.sock_list if x is not socket and id(x) in ctx.sid_of]
+                    if lst and socket.addr is not None:
+                        sid = lst[-1] + "c"
+                        ctx.sid_of[id(socket)] = sid
+                        ctx.keep = getattr(ctx, "keep", []) + [socket]
+                        ctx.emit("Adopt", lname(), sid, lst[-1], "-")
+                return r
+        llc_mod.ServiceAccessPoint.insert_socket = insert_socket
 
         # linearisation point of the modelled calls: the base class recv()/poll("recv") critical section
         base = tco_mod.TransmissionControlObject
